@@ -159,7 +159,12 @@ def push_value_mut(chk, F, rule, cfg):
     vc_inline = lambda f_, d_, n_: f_.defp.startswith('value_chain::') and f_.kind in ('fn', 'assoc') and not re.search(r'Node::new$|Value::downcast_(ref|mut)$', f_.defp)  # noqa: E731
     for p in symex.Interp(F, inline=vc_inline).run(fn):
         ws = [e for e in p.effects if e.kind == 'write' and e.data[0][1][-1:] == (('f', 'root'),)]
-        ok = len(ws) == 1 and mentions(ws[0].data[1], lambda x: is_call(x, r'Node::new$') and mentions(x, lambda y: y == ('param', 0, 2)))
+        new_node = lambda v_: mentions(v_, lambda x: is_call(x, r'Node::new$') and mentions(x, lambda y: y == ('param', 0, 2)))  # noqa: E731
+        ok = len(ws) == 1 and new_node(ws[0].data[1])
+        if not ws:
+            # the same replacement spelled mem::replace(&mut self.root, new node) (the old chain is handed to whoever releases it)
+            rs = [e for e in p.calls(r'core::mem::replace$') if field_path(e.data[2][0]) == (('param', 0, 1), ['root'])]
+            ok = len(rs) == 1 and new_node(rs[0].data[2][1])
         r = p.outcome[1] if p.outcome[0] == 'return' else ('unk', '')
         okr = mentions(r, lambda x: is_call(x, r'OnceCell(<T>)?::get_mut$') and field_path(x[2][0]) == (('param', 0, 1), ['root'])) and \
             mentions(r, lambda x: is_call(x, r'Value::downcast_mut$')) and \
